@@ -177,7 +177,7 @@ fn pkt(bytes: Vec<u8>, delay: u64) -> Answer {
     Answer::Deliver { bytes, delay_ns: delay }
 }
 
-fn sender_alphabet(cfg: &XCfg, v: &SView) -> Vec<Alt> {
+fn sender_alphabet(cfg: &XCfg, v: &SView, answers: usize) -> Vec<Alt> {
     let t = cfg.timeout_ns();
     let mut a: Vec<Alt> = vec![];
     if !v.any_data {
@@ -205,6 +205,13 @@ fn sender_alphabet(cfg: &XCfg, v: &SView) -> Vec<Alt> {
     let hi = v.hi;
     a.push((pkt(rc::ack(w16(hi)), 0), 0, format!("Ack({hi})")));
     if cfg.alpha == 3 {
+        return a;
+    }
+    if cfg.alpha == 4 {
+        // words over {conformant answer, timeout}
+        if answers < 12 {
+            a.push((Answer::Timeout, 0, "Timeout".into()));
+        }
         return a;
     }
     let mut acks: Vec<(u64, String)> = vec![];
@@ -262,7 +269,7 @@ fn sender_alphabet(cfg: &XCfg, v: &SView) -> Vec<Alt> {
     a
 }
 
-fn receiver_alphabet(cfg: &XCfg, r: &RefRecv, content: &[u8]) -> Vec<Alt> {
+fn receiver_alphabet(cfg: &XCfg, r: &RefRecv, content: &[u8], answers: usize) -> Vec<Alt> {
     let mut a: Vec<Alt> = vec![];
     if r.done {
         a.push((Answer::Timeout, 0, "Timeout(drain)".into()));
@@ -273,6 +280,12 @@ fn receiver_alphabet(cfg: &XCfg, r: &RefRecv, content: &[u8]) -> Vec<Alt> {
     let proper = block_payload(cfg, content, e);
     a.push((pkt(rc::data(w16(e), &proper), 0), 0, format!("Data({e},len{})", proper.len())));
     if cfg.alpha == 3 {
+        return a;
+    }
+    if cfg.alpha == 4 {
+        if answers < 12 {
+            a.push((Answer::Timeout, 0, "Timeout".into()));
+        }
         return a;
     }
     if e < n && cfg.blk > 0 {
@@ -406,8 +419,8 @@ pub fn run(cfg: &XCfg, prefix: &[u16]) -> Trace {
                     ch.choose(&[0], &|_| "answer to a copy".into());
                 } else {
                     let alts = match cfg.role {
-                        Role::Sender => sender_alphabet(cfg, &sv),
-                        Role::Receiver => receiver_alphabet(cfg, &refr, &content),
+                        Role::Sender => sender_alphabet(cfg, &sv, answers),
+                        Role::Receiver => receiver_alphabet(cfg, &refr, &content, answers),
                     };
                     let costs: Vec<u8> = alts.iter().map(|x| x.1).collect();
                     let c = ch.choose(&costs, &|i| alts[i].2.clone());
